@@ -1208,6 +1208,11 @@ impl Engine for Net {
                     std::thread::sleep(std::time::Duration::from_millis(2));
                     let ran_after = sh.log.lock().unwrap().len() != handled_before;
                     let excluded = timeout_seen;
+                    if excluded && returned == "hung" {
+                        // after a time-out the abandoned computation makes the other measurements meaningless, but the drop
+                        // itself still has to return (the handler that overran sleeps for 400 ms only)
+                        out.monitor.push(("C19".into(), format!("dropping the simulation after a Timeout did not return within 20 s ({threads} thread(s))")));
+                    }
                     if !excluded {
                         if returned != "returned" {
                             out.monitor.push(("C19".into(), format!("dropping the simulation {returned} ({threads} thread(s))")));
@@ -1725,11 +1730,19 @@ fn gen_case(rng: &mut Rng, _idx: usize, tier: Tier, focus: &str) -> Case {
         _ => {}
     }
     // ---- fault variants (C11 / C16): panic in a (sub-)model, port send to a dropped mailbox, overrunning handler
-    let fault_kind = if focus == "C11" { rng.range(1, 4) } else if focus == "C19" && rng.chance(1, 2) { 1 } else if focus == "C16" && rng.chance(1, 3) { rng.range(1, 2) } else if rng.chance(1, 8) { rng.range(1, 4) } else { 0 };
+    let fault_kind = if focus == "C11" { rng.range(1, 4) } else if focus == "C19" && rng.chance(1, 2) { if rng.chance(1, 3) { 3 } else { 1 } } else if focus == "C16" && rng.chance(1, 3) { rng.range(1, 2) } else if rng.chance(1, 8) { rng.range(1, 4) } else { 0 };
     // the fault is raised, two times out of three, in a model that owns sub-models (attribution has to pick the right
     // entry of the name table)
     let parents: Vec<usize> = (0..n).filter(|i| parent.iter().any(|p| *p == Some(*i))).collect();
-    let fault_model = if !parents.is_empty() && rng.chance(2, 3) { *rng.pick(&parents) } else { rng.below(n as u64) as usize };
+    let mut fault_model = if !parents.is_empty() && rng.chance(2, 3) { *rng.pick(&parents) } else { rng.below(n as u64) as usize };
+    if fault_kind == 3 && rng.chance(1, 2) {
+        // the handler that overruns the time-out belongs to a model that sends nothing: when it finally returns its worker
+        // finds no further task (it must still notice the abort and leave)
+        let silent: Vec<usize> = (0..n).filter(|i| ports[*i].is_empty()).collect();
+        if !silent.is_empty() {
+            fault_model = *rng.pick(&silent);
+        }
+    }
     let dead_idx = total;
     let mut fault_lines: Vec<String> = Vec::new();
     let mut fault_cmds: Vec<String> = Vec::new();
